@@ -404,8 +404,64 @@ def inline_value_calls(p: Program, f: Function, depth: int = 2, keep=()) -> Func
             body = body[:-1] + list(body[-1].body)
         rets = [n for n in own_walk(node) if isinstance(n, ast.Return)]
         if len(rets) != 1 or not body or body[-1] is not rets[0] or rets[0].value is None:
-            return None, None
+            single = single_exit(body)
+            if single is None:
+                return None, None
+            body = single
         return hmod, (body, mapping)
+
+    def single_exit(body):
+        """A body with early returns rewritten to one exit: `return v` becomes `_result = v; _returned = True`, and whatever
+        follows a statement that may return runs under `if not _returned:`; the body ends with `return _result`.  Returns inside
+        loops or bare `return` are not handled (None)."""
+        def has_ret(st):
+            return any(isinstance(n, ast.Return) for n in own_walk(st)) or isinstance(st, ast.Return)
+        for n in [x for st in body for x in ast.walk(st)]:
+            if isinstance(n, (ast.For, ast.While)) and any(isinstance(m, ast.Return) for m in ast.walk(n)):
+                return None
+            if isinstance(n, ast.Return) and n.value is None:
+                return None
+        if not any(has_ret(st) for st in body):
+            return None
+
+        def conv(stmts):
+            out = []
+            for i, st in enumerate(stmts):
+                if isinstance(st, ast.Return):
+                    out.append(ast.copy_location(ast.Assign(targets=[ast.Name(id="_result", ctx=ast.Store())], value=copy.deepcopy(st.value)), st))
+                    out.append(ast.copy_location(ast.Assign(targets=[ast.Name(id="_returned", ctx=ast.Store())],
+                                                            value=ast.Constant(value=True)), st))
+                    return out
+                if not has_ret(st):
+                    out.append(copy.deepcopy(st))
+                    continue
+                st2 = copy.copy(st)
+                for fld in ("body", "orelse", "finalbody"):
+                    sub = getattr(st, fld, None)
+                    if isinstance(sub, list) and sub and isinstance(sub[0], ast.stmt):
+                        setattr(st2, fld, conv(sub))
+                if isinstance(st, ast.Try):
+                    st2.handlers = []
+                    for h in st.handlers:
+                        h2 = copy.copy(h)
+                        h2.body = conv(h.body)
+                        st2.handlers.append(h2)
+                out.append(st2)
+                rest = conv(stmts[i + 1:])
+                if rest:
+                    out.append(ast.copy_location(ast.If(test=ast.UnaryOp(op=ast.Not(), operand=ast.Name(id="_returned", ctx=ast.Load())),
+                                                        body=rest, orelse=[]), stmts[i + 1]))
+                return out
+            return out
+        new = [ast.Assign(targets=[ast.Name(id="_returned", ctx=ast.Store())], value=ast.Constant(value=False)),
+               ast.Assign(targets=[ast.Name(id="_result", ctx=ast.Store())], value=ast.Constant(value=None))]
+        new += conv(body)
+        new.append(ast.Return(value=ast.Name(id="_result", ctx=ast.Load())))
+        for m in new:
+            for sub in ast.walk(m):
+                if not hasattr(sub, "lineno"):
+                    ast.copy_location(sub, body[0])
+        return new
 
     def subst(body, mapping, suffix, direct=None):
         direct = direct or {}
@@ -601,3 +657,84 @@ def normalise_mapping_loops(f: Function, mapping: str) -> Function:
     g = copy.copy(f)
     g.node = node
     return g
+
+
+def scenario_paths(stmts: List[ast.stmt], env: Dict[str, bool], test_oracle, event_of_call, take_handlers: bool = False):
+    """Path-sensitive walk of a statement list under a *scenario*: `test_oracle(expr, env)` gives the truth of a test or of an
+    assigned value in the scenario (True / False / None = both ways), locals assigned a known truth value are tracked in `env`,
+    `event_of_call(call)` names the calls of interest.  Returns the (env, events) reached at the end of the list on every
+    path consistent with the scenario; a `return` / `continue` / `break` ends a path with the event "exit".
+    Loops inside the list are walked once (their body may or may not run)."""
+    def truth(test, e):
+        if isinstance(test, ast.Name):
+            return e.get(test.id)
+        if isinstance(test, ast.Constant) and isinstance(test.value, bool):
+            return test.value
+        if isinstance(test, ast.UnaryOp) and isinstance(test.op, ast.Not):
+            v = truth(test.operand, e)
+            return None if v is None else (not v)
+        if isinstance(test, ast.BoolOp):
+            vs = [truth(v, e) for v in test.values]
+            if isinstance(test.op, ast.And):
+                return False if any(v is False for v in vs) else (True if all(v is True for v in vs) else None)
+            return True if any(v is True for v in vs) else (False if all(v is False for v in vs) else None)
+        if isinstance(test, ast.Call) and isinstance(test.func, ast.Name) and test.func.id == "bool" and len(test.args) == 1:
+            return truth(test.args[0], e)
+        return test_oracle(test, e)
+
+    def walk(sts, e, ev):
+        states = [(dict(e), list(ev))]
+        for st in sts:
+            nxt = []
+            for e1, ev1 in states:
+                if ev1 and ev1[-1] == "exit":
+                    nxt.append((e1, ev1))
+                else:
+                    nxt += step(st, e1, ev1)
+            states = nxt
+        return states
+
+    def step(st, e, ev):
+        if not isinstance(st, (ast.If, ast.Try, ast.For, ast.While, ast.With)):
+            for c in [n for n in ast.walk(st) if isinstance(n, ast.Call)]:
+                k = event_of_call(c)
+                if k:
+                    ev = ev + [k]
+        if isinstance(st, (ast.Assign, ast.AnnAssign)) and getattr(st, "value", None) is not None:
+            tgs = st.targets if isinstance(st, ast.Assign) else [st.target]
+            e = dict(e)
+            for tg in tgs:
+                if isinstance(tg, ast.Name):
+                    tv = truth(st.value, e)
+                    if tv is None:
+                        e.pop(tg.id, None)
+                    else:
+                        e[tg.id] = tv
+                elif isinstance(tg, (ast.Tuple, ast.List)):
+                    for x in tg.elts:
+                        if isinstance(x, ast.Name):
+                            e.pop(x.id, None)
+            return [(e, ev)]
+        if isinstance(st, ast.If):
+            tv = truth(st.test, e)
+            out = []
+            if tv is not False:
+                out += walk(st.body, e, ev)
+            if tv is not True:
+                out += walk(st.orelse, e, ev)
+            return out
+        if isinstance(st, ast.Try):
+            out = walk(st.body + st.orelse + st.finalbody, e, ev)
+            if take_handlers:
+                for h in st.handlers:
+                    out += walk(h.body + st.finalbody, e, ev)
+            return out
+        if isinstance(st, ast.With):
+            return walk(st.body, e, ev)
+        if isinstance(st, (ast.For, ast.While)):
+            return walk(st.body, e, ev) + [(dict(e), list(ev))]
+        if isinstance(st, (ast.Continue, ast.Break, ast.Return, ast.Raise)):
+            return [(e, ev + ["exit"])]
+        return [(e, ev)]
+
+    return walk(stmts, env, [])
